@@ -17,7 +17,7 @@ the Go code and a concrete instance.
 5. `compileExpr_pure`, `pure_labels_fresh`, `pure_ok`, `pure_fatal`, `compiled_pure_correct` —
    the same for expressions with `&&`, `||` and `if`/`else` (jumps and labels);
 6. `compileStmts_frag`, `stmts_correct`, `compiled_stmts_correct`, `mangling_collision` —
-   `let`, assignment, compound assignment and `while`, under the hypothesis that no identifier
+   `let`, assignment, compound assignment, `if` statements and `while`, under the hypothesis that no identifier
    ends in a digit (without it the statement is false: finding V26).
 -/
 namespace HmsProofs.C01VM
@@ -414,11 +414,11 @@ example : ∃ k, execN vmCode3 {} k vm3 = .next (reach vm3 17 k [⟨.int 6, none
     exact ⟨"@main_x0", .int 3, rfl, rfl, by decide, by decide, rfl⟩
 end Example5
 
-/-! ## 6. `let`, assignment, `while` -/
+/-! ## 6. `let`, assignment, `if`, `while` -/
 
 /-- **`compileStmts` on the statement fragment.** For sequences of `let x = e;`, `x = e;`,
-`x op= e;` (local `x`, pure `e`) and `while c { … }` over such statements (`Frag.okSs`), well
-scoped (`Frag.wsSs`), the Go compiler appends exactly `cSs module ss env` to the current function
+`x op= e;` (local `x`, pure `e`), `if c { … }`, `if c { … } else { … }` and `while c { … }` over
+blocks of such statements (`Frag.okSs`), well scoped (`Frag.wsSs`), the Go compiler appends exactly `cSs module ss env` to the current function
 and leaves the state `updS …`: scopes, variable counters, label counters and the function's
 variable count as computed by the pure function `cSs`; the loop stack and everything else as
 before. -/
@@ -436,6 +436,29 @@ program `let x1 = 100; let x = 0; …; let x = 10; println(x1)` prints `100` und
 specification and `10` on the VM. The theorems below therefore assume that no identifier of the
 fragment ends in a digit; under that assumption names are injective (`mangleName_inj`). -/
 theorem mangling_collision : mangleName "main" "x1" 0 = mangleName "main" "x" 10 := by decide
+
+section V26Witness
+private def mkLet (x : String) (v : Int) : Stmt := .letS sp0 x .int false .int (.int sp0 v)
+private def printVar (x : String) : Stmt :=
+  .exprS sp0 (.call sp0 .null (.ident sp0 (.fn [] .null) "println" false false false)
+    [("", .ident sp0 .int x false false false)] false)
+/-- `fn main() { let x1 = 100; let x = 0; let x = 1; … let x = 10; println(x1); }` -/
+private def v26prog : Program :=
+  [{ name := "main", imports := [], singletons := [], globals := [], nImpls := 0,
+     fns := [⟨sp0, "main", [], .null, 0, false,
+       .mk sp0 .null ([mkLet "x1" 100] ++ (List.range 11).map (fun (i : Nat) => mkLet "x" (i : Int)) ++
+         [printVar "x1"]) none⟩] }]
+
+/-- The counterexample to an unconditional `let` theorem, on the models themselves (kernel
+evaluation): the specification prints `100` … -/
+example : (match runProgram { prog := v26prog } 100 with | .ok out _ => out | _ => "?") = "100\n" := by
+  decide +kernel
+/-- … the compiled program on the VM prints `10`: the eleventh `x` overwrote `x1`. -/
+example : (match compile v26prog "main" 100 with
+    | .ok c => (match runMain c {} 50 1000 with | .ok s => s.st.out | _ => "?")
+    | .error e => e) = "10\n" := by
+  decide +kernel
+end V26Witness
 
 /-- **Statements on the VM.** `StRel`: level by level the specification's scopes and the
 compiler's scopes bind the same (tracked) identifiers, each mangled name's slot is a legal cell
@@ -479,13 +502,15 @@ theorem compiled_stmts_correct (cfg : Cfg) (code : Code) (lim : Limits) (mod : S
 
 section Example6
 private def idn (x : String) : Expr := .ident sp0 .int x false false false
-/-- `let i = 0; let acc = 0; while i < 4 { acc += i; i += 1; }` -/
+/-- `let i = 0; let acc = 0; while i < 5 { if i % 2 == 0 { acc += i; } i += 1; }` -/
 def loopEx : List Stmt :=
   [ .letS sp0 "i" .int false .int (.int sp0 0),
     .letS sp0 "acc" .int false .int (.int sp0 0),
-    .whileS sp0 (.infix sp0 .bool .lt (idn "i") (.int sp0 4))
+    .whileS sp0 (.infix sp0 .bool .lt (idn "i") (.int sp0 5))
       (.mk sp0 .null
-        [ .exprS sp0 (.assign sp0 (some .add) (idn "acc") (idn "i")),
+        [ .exprS sp0 (.ifE sp0 .null
+            (.infix sp0 .bool .eq (.infix sp0 .int .rem (idn "i") (.int sp0 2)) (.int sp0 0))
+            (.mk sp0 .null [ .exprS sp0 (.assign sp0 (some .add) (idn "acc") (idn "i")) ] none) none),
           .exprS sp0 (.assign sp0 (some .add) (idn "i") (.int sp0 1)) ] none) ]
 private def envL : CEnv := ⟨[[]], [], [], 0⟩
 private def csL : CState :=
@@ -499,13 +524,13 @@ private def codeL : Code := [{ name := "@main_main", code := renameVars relL }]
 private def vmL : VMState := { calls := [⟨"@main_main", 1⟩], mp := 4 }
 private def TL : List String := ["i", "acc"]
 
-example : Frag.okSs loopEx = true ∧ Frag.depthSs loopEx ≤ 10 ∧ Frag.wsSs "main" loopEx envL = true := by
+example : Frag.okSs loopEx = true ∧ Frag.depthSs loopEx ≤ 13 ∧ Frag.wsSs "main" loopEx envL = true := by
   decide +kernel
 
 /-- The real compiler run produces `cSs …` (statement instantiated). -/
-example : (((compileStmts 10 loopEx).run csL).2.fns.lookup ("main", "main")).map (·.code) =
+example : (((compileStmts 13 loopEx).run csL).2.fns.lookup ("main", "main")).map (·.code) =
     some ([(.addMp 4, sp0)] ++ (cSs "main" loopEx envL).1) := by
-  rw [compileStmts_frag 10 loopEx csL (by decide +kernel) (by decide +kernel) (by decide +kernel)]
+  rw [compileStmts_frag 13 loopEx csL (by decide +kernel) (by decide +kernel) (by decide +kernel)]
   rfl
 
 private theorem relocate_symL : relocate symL = some relL := by
@@ -522,14 +547,15 @@ private def okU : Except Ctl Unit → Bool
   | _ => false
 
 /-- The specification: the loop ends normally with `acc = 6`. -/
-private theorem spec_facts : okU (evalStmts { prog := [] } 16 loopEx {}).1 = true ∧
-    ((lookupScopes "acc" (evalStmts { prog := [] } 16 loopEx {}).2.scopes).map (isInt 6)) = some true := by
+private theorem spec_facts : okU (evalStmts { prog := [] } 20 loopEx {}).1 = true ∧
+    ((lookupScopes "acc" (evalStmts { prog := [] } 20 loopEx {}).2.scopes).map (isInt 6)) = some true := by
   decide +kernel
 
 /-- The VM, running the relocated and renamed code from instruction 1 with an empty memory,
-reaches the end of the loop (instruction 18) with `6` in the cell of `acc` (slot 1: cell
-`mp - 1 = 3`), after five evaluations of the condition and four passes through the body. -/
-example : ∃ k mem', execN codeL {} k vmL = .next (reach vmL 18 k [] mem') ∧
+reaches the end of the loop (instruction 25) with `6 = 0 + 2 + 4` in the cell of `acc` (slot 1:
+cell `mp - 1 = 3`), after six evaluations of the loop condition, five passes through the body
+and three through the `if` branch. -/
+example : ∃ k mem', execN codeL {} k vmL = .next (reach vmL 25 k [] mem') ∧
     ∃ i : I64, mem'.lookup 3 = some (.int i) ∧ i.toInt = 6 := by
   have hst : StRel "main" TL (· ∈ varNames relL) (slotFn relL) {} vmL.mp envL.scopes envL.vm
       ({} : St).scopes [] :=
@@ -546,11 +572,15 @@ example : ∃ k mem', execN codeL {} k vmL = .next (reach vmL 18 k [] mem') ∧
     simp [findCode, codeL]
   have h7 : ∀ m ∈ varNames relL, 0 ≤ vmL.mp - (slotFn relL m : Int) ∧
       vmL.mp - (slotFn relL m : Int) < ((({} : Limits).memory : Nat) : Int) := by decide +kernel
-  have h := compiled_stmts_correct { prog := [] } codeL {} "main" TL 16 loopEx envL {} vmL
+  -- (the fuel is kept abstract while the theorem is instantiated, so that the elaborator does not
+  -- start evaluating the specification; the kernel does that in `spec_facts`)
+  obtain ⟨fuel, hfuel⟩ : ∃ n : Nat, n = 20 := ⟨20, rfl⟩
+  have h := compiled_stmts_correct { prog := [] } codeL {} "main" TL fuel loopEx envL {} vmL
     ⟨"@main_main", 1⟩ [] [(.addMp 4, sp0)] [(.label "main_cleanup0", sp0), (.addMp (-4), sp0), (.ret, sp0)]
     relL [] [] h1 h2 h3 h4 relocate_symL h5 rfl h6 h7 hst rfl
+  subst hfuel
   obtain ⟨hok, hacc⟩ := spec_facts
-  rcases hev : evalStmts { prog := [] } 16 loopEx {} with ⟨res, st'⟩
+  rcases hev : evalStmts { prog := [] } 20 loopEx {} with ⟨res, st'⟩
   rw [hev] at h hok hacc
   cases res with
   | error e => simp [okU] at hok
